@@ -98,6 +98,13 @@ Theorem ValueApi_lazy_write_to_vec_keeps_prefix : forall l, (forall v, l = LValu
 Proof. exact lazy_write_to_vec_keeps_prefix. Qed.
 Print Assumptions ValueApi_lazy_write_to_vec_keeps_prefix.
 
+(* without any size hypothesis: the caller's bytes are kept by Value::write_to_vec and by LazyValue::write_to_vec, whatever the value *)
+Theorem ValueApi_write_to_vec_only_appends :
+  (forall v buf, write_to_vec buf v = buf ++ write_to_vec [] v) /\
+  (forall l buf, lazy_write_to_vec buf l = buf ++ lazy_write_to_vec [] l).
+Proof. split; [exact write_to_vec_only_appends|exact lazy_write_to_vec_only_appends]. Qed.
+Print Assumptions ValueApi_write_to_vec_only_appends.
+
 Theorem ValueApi_lazy_to_vec : forall v, wf_size v = true ->
   lazy_to_vec (LRaw (enc v)) = enc v /\ lazy_to_vec (lazy_of_value v) = enc v.
 Proof. exact lazy_to_vec_both. Qed.
